@@ -452,7 +452,8 @@ MG_ALPHA_B = '{"newarr", "npview", "wrap", "op", "opout", "failout", "clear", "d
 MG_ALPHA_C = '{"newarr", "freeze", "wrap", "op", "inplace", "clear", "dropt", "dropa"}'
 MG_ALPHA_C_ONLY = '{"newarr", "freeze", "wrap", "inplace", "clear", "dropt", "dropa"}'   # one statement deeper
 MG_ALPHA_D = '{"newarr", "wrap", "view", "op", "inplacefam", "clear", "dropt"}'     # in-place updates inside view families
-MG_ALPHABET_SIM = ('{"newarr", "npview", "freeze", "wrap", "op", "opout", "inplace", "inplacefam", "view", "fail", "failout", '
+MG_ALPHA_E = '{"newarr", "wrap", "op", "view", "dataof", "clear", "dropt", "dropa"}'   # the user keeps t.data of results and views
+MG_ALPHABET_SIM = ('{"newarr", "npview", "freeze", "wrap", "op", "opout", "inplace", "inplacefam", "view", "dataof", "fail", "failout", '
                    '"clear", "dropt", "dropa"}')
 
 
@@ -595,7 +596,7 @@ def check_C08(tier: str, seed: int) -> int:
         maxlen = 5 if quick else 6
         behs = []
         o3 = ""
-        for alpha, extra_len in ((MG_ALPHA_A, 0), (MG_ALPHA_B, 0), (MG_ALPHA_C, 0), (MG_ALPHA_C_ONLY, 1)):
+        for alpha, extra_len in ((MG_ALPHA_A, 0), (MG_ALPHA_B, 0), (MG_ALPHA_C, 0), (MG_ALPHA_C_ONLY, 1), (MG_ALPHA_E, 1)):
             _mg_cfg(cfg3, 3, 4, 2, maxlen + extra_len, True, ["Emit"], alpha)
             rc, o3x, wall = tlc.run_tlc(spec, cfg3, workers=1, timeout=3000, heap="8g")
             bx, bad = replay.parse_behaviours(o3x)
